@@ -2,12 +2,11 @@
    orientation, area.  "In front" means snapped distance > tol, "behind" < -tol, "on" = 0. *)
 From Coq Require Import ZArith Reals Lra Psatz List Bool Lia Arith.
 From PW Require Import Num NumR Vec NpList Result.
-From PW.model Require Import M_slicing.
+From PW.model Require Import M_slicing M_slicing_spec.
 From PW.proofs Require Import P_vec P_nplist P_slicing.
 Import ListNotations.
 Local Open Scope R_scope.
 
-Definition pd (n o : vec3 R) (v : vec3 R) : R := plane_dot ROps n o v.
 
 (* ---- what each branch of the case split knows about the (snapped) corner distances ------------------------ *)
 Lemma vsign_ge0 tol d : (0 <= vsign ROps tol d)%Z -> d <= tol.
@@ -22,8 +21,6 @@ Proof.
 Qed.
 
 (* every distance the kernel uses is 0 or further than tol from 0 *)
-Definition snapped3 (tol : R) (ds : R * R * R) : Prop :=
-  forall k, (k < 3)%nat -> dget ds k = 0 \/ tol < dget ds k \/ dget ds k < - tol.
 Lemma tri_dists_snapped tol n o t : 0 <= tol -> snapped3 tol (tri_dists ROps tol n o t).
 Proof. intros Ht k Hk. rewrite dget_tri_dists by exact Hk. apply snap_range, Ht. Qed.
 Lemma snapped_nonpos tol ds k : 0 <= tol -> snapped3 tol ds -> (k < 3)%nat -> dget ds k <= tol -> dget ds k <= 0.
@@ -99,9 +96,6 @@ Proof.
 Qed.
 
 (* ---- points of a face whose interpolated (snapped) distance is not negative -------------------------------- *)
-Definition wdot (ds : R * R * R) (w0 w1 w2 : R) : R := w0 * dget ds 0 + w1 * dget ds 1 + w2 * dget ds 2.
-Definition in_tri_nn (t : tri R) (ds : R * R * R) (x : vec3 R) : Prop :=
-  exists w0 w1 w2, 0 <= w0 /\ 0 <= w1 /\ 0 <= w2 /\ w0 + w1 + w2 = 1 /\ x = bary t w0 w1 w2 /\ 0 <= wdot ds w0 w1 w2.
 
 Lemma in_tri_nn_in_tri t ds x : in_tri_nn t ds x -> in_tri t x.
 Proof. intros (w0 & w1 & w2 & H0 & H1 & H2 & Hs & E & _). exists w0, w1, w2. auto. Qed.
@@ -183,8 +177,6 @@ Proof.
 Qed.
 
 (* ---- the two cut shapes, corner 0 special ----------------------------------------------------------------------- *)
-Definition vsum_normals (l : list (tri R)) : vec3 R :=
-  fold_right (fun t acc => vadd ROps (tri_normal t) acc) (V3 0 0 0) l.
 Definition corners_ok (t : tri R) (ds : R * R * R) (l : list (tri R)) : Prop :=
   Forall (fun t' => Forall (in_tri_nn t ds) (tri_corners t')) l.
 Definition orient_ok (t : tri R) (l : list (tri R)) : Prop :=
@@ -192,8 +184,6 @@ Definition orient_ok (t : tri R) (l : list (tri R)) : Prop :=
 Definition area_frac (t : tri R) (l : list (tri R)) (f : R) : Prop :=
   0 <= f <= 1 /\ vsum_normals l = vscale ROps f (tri_normal t).
 (* the fractions of the face's area that the two cut shapes keep, from the distances a (corner 0), b, c *)
-Definition frac_tri0 (a b c : R) : R := a / (a - b) * (1 - c / (c - a)).
-Definition frac_quad0 (a b c : R) : R := c / (c - a) + (1 - a / (a - b)) * (1 - c / (c - a)).
 
 Lemma tri0_normal a b c s u :
   tri_normal (a, lerp a b s, lerp c a u) = vscale ROps (s * (1 - u)) (tri_normal (a, b, c)).
@@ -370,23 +360,8 @@ Theorem slice_face_orient tol eps n o m t t' : 0 <= tol ->
 Proof. intros Ht Hin. exact (slice_face_signs_orient tol eps _ m t t' Ht Hin). Qed.
 
 (* ---- the case rules of the property text, pattern by pattern ------------------------------------------------ *)
-Definition all_le0 (s : sgn3) : bool := ((sget s 0 <=? 0) && (sget s 1 <=? 0) && (sget s 2 <=? 0))%Z.
-Definition all_ge0 (s : sgn3) : bool := ((0 <=? sget s 0) && (0 <=? sget s 1) && (0 <=? sget s 2))%Z.
-Definition count_front (s : sgn3) : nat :=
-  ((if (sget s 0 =? -1)%Z then 1 else 0) + (if (sget s 1 =? -1)%Z then 1 else 0) + (if (sget s 2 =? -1)%Z then 1 else 0))%nat.
 (* the text: not selected, or wholly on / in front -> kept whole; otherwise no corner in front -> dropped;
    otherwise cut: two corners in front -> quad around the corner behind, one -> triangle at the corner in front *)
-Definition expected_case (s : sgn3) (m : bool) : fcase :=
-  if negb m then Keep
-  else if all_le0 s then Keep
-  else if all_ge0 s then Drop
-  else if (count_front s =? 2)%nat then CQuad (col_of 1 s) else CTri (col_of (-1) s).
-Definition fcase_eqb (a b : fcase) : bool :=
-  match a, b with
-  | Keep, Keep | Drop, Drop => true
-  | CQuad i, CQuad j | CTri i, CTri j => Nat.eqb i j
-  | _, _ => false
-  end.
 Lemma fcase_eqb_eq a b : fcase_eqb a b = true -> a = b.
 Proof. destruct a, b; cbn; try discriminate; try reflexivity; intros H; apply Nat.eqb_eq in H; subst; reflexivity. Qed.
 
